@@ -651,7 +651,8 @@ pub fn parse_iter<'a>(
             // whatever the lines come from - files including files again and again, macro bodies
             // including files - a build reads a bounded number of them
             let lines = &context.common_context.lines;
-            lines.set(lines.get() + 1);
+            // a long line counts for as many lines as it has times 64 characters
+            lines.set(lines.get() + 1 + line.len() / 64);
             if lines.get() > MAX_LINES {
                 bail!(
                     "more than {} lines read at {}",
